@@ -630,10 +630,13 @@ def _d8(chk, fb):
                 continue
             for x in sites:
                 blocks.add(f.cfg.stmt_block(x))
-        for c, t in _helpers(fb, f):
+        for _, t in _helpers(fb, f):
             st = stores(t)
+            sites_ = [c for c in f.calls() if any(g is t for g in fb.targets(c, static_type_only=True))]
             if st and e1.must_pass(t.cfg, {t.cfg.stmt_block(x) for x in st})[0]:
-                blocks.add(f.cfg.stmt_block(c))
+                for c in sites_:
+                    for x in (e1.lift_to_call_sites(f, c) or []):
+                        blocks.add(f.cfg.stmt_block(x))
             elif st:
                 opaque = "helper %s stores it on some paths only" % t.name
         blocks.discard(None)
